@@ -194,6 +194,38 @@ def anonymous_senders(v, rng, base, n_rounds):
     return n
 
 
+def regenerated_handlers_are_current(v, docs):
+    """What a signal does is decided by the header on disk.  The documents of this check share one static tree and differ in their
+    handlers only, so generating one over the outputs of another leaves the .ui byte-identical: the header must still be the one
+    of the CURRENT source (compared with a generation into an empty directory)."""
+    import subprocess
+    wd = common.workdir("c13regen")
+    env = dict(os.environ, NO_COLOR="1")
+    cmd = [common.CLI, "generate-ui", "--foreign-types", common.METATYPES, "--foreign-types", common.VF_TYPES, "Form.qml"]
+    n = 0
+    for k in range(0, len(docs) - 1, 2):
+        a, b = docs[k], docs[k + 1]
+        hist, fresh = os.path.join(wd, "h%d" % k), os.path.join(wd, "f%d" % k)
+        os.makedirs(hist)
+        os.makedirs(fresh)
+        open(os.path.join(hist, "Form.qml"), "w").write(a.source)
+        p1 = subprocess.run(cmd, cwd=hist, capture_output=True, env=env, timeout=120)
+        open(os.path.join(hist, "Form.qml"), "w").write(b.source)
+        p2 = subprocess.run(cmd, cwd=hist, capture_output=True, env=env, timeout=120)
+        open(os.path.join(fresh, "Form.qml"), "w").write(b.source)
+        p3 = subprocess.run(cmd, cwd=fresh, capture_output=True, env=env, timeout=120)
+        if p1.returncode or p2.returncode or p3.returncode:
+            v.inconc("regeneration scenario refused: %s" % (p1.stderr + p2.stderr + p3.stderr).decode("utf-8", "replace")[-200:])
+            continue
+        n += 1
+        on_disk, current = (open(os.path.join(x, "uisupport_form.h")).read() for x in (hist, fresh))
+        if on_disk != current:
+            v.violation("stale-handlers-after-edit", "only handler bodies were edited (the .ui stays byte-identical) and the source was generated "
+                        "again: the support header on disk is not the code of the current handlers",
+                        {"qml_before": a.source, "qml": b.source, "header_on_disk": on_disk, "header_of_current_source": current})
+    return n
+
+
 def run(tier, seed, replay=None):
     v = common.Verdict("C13", tier, seed)
     rng = common.rng_for(seed, "C13", tier)
@@ -364,6 +396,7 @@ def run(tier, seed, replay=None):
             n_neg += 1
     n_vc = 0 if replay else value_class_parameters(v, rng, base, 2 if tier == "quick" else 12)
     n_anon = 0 if replay else anonymous_senders(v, rng, base, 4 if tier == "quick" else 40)
+    n_regen = 0 if replay else regenerated_handlers_are_current(v, [w[1] for w in work][:8 if tier == "quick" else 40])
     feats = sorted(set().union(*[d.features for d in docs])) if docs else []
     v.assumptions = ["reference interpreter in statement mode (qv/gen_expr.py) gives the prescribed effect trace",
                      "API model: direct connections; every setter/slot/console call appends to one event log",
@@ -373,7 +406,7 @@ def run(tier, seed, replay=None):
         rule="handlers in every form (expression, block, function, arrow; 0..n leading parameters) on Qt and synthetic signals "
              "(default-argument families, up to 3 arguments, inherited signals); bodies are random void programs; each defined "
              "(state, arguments) tuple is emitted and its effect trace compared; distinct = distinct handler text with >= 1 effect",
-        samples=samples, documents=len(work), handlers=sum(len(w[1].handlers) for w in work), traces_compared=n_traces, value_class_parameter_traces=n_vc, anonymous_sender_clicks=n_anon,
+        samples=samples, documents=len(work), handlers=sum(len(w[1].handlers) for w in work), traces_compared=n_traces, value_class_parameter_traces=n_vc, anonymous_sender_clicks=n_anon, regenerations_compared=n_regen,
         effect_events_compared=n_events, connections_checked=n_connect_checked, undefined_runs_skipped=n_undefined,
         handlers_rejected_by_qmluic=len(rejected), rejection_reasons=rej_msgs, bad_handlers_rejected=n_neg,
         shape_features_hit=len(feats), shape_features=feats, floor=50,
